@@ -127,3 +127,15 @@ PROPS["C04"] = dict(
                 "reverse-order exit). " + SCHED_BOUNDED_NOTE + "Composition half: bounded differential stand-in -- random forests run natively flat and regrouped under "
                 "tock-0 DoDoers (nested up to 2 levels), leaf traces, run result and done flags compared.",
 )
+
+PROPS["C07"] = dict(
+    contracts=["contracts.c07_realtime", "contracts.c08_timers"], harness="harness.c07", level="proof",
+    trusted_base=["EXT time.time() == tau + off with tau non-decreasing and off non-increasing (backward steps only, as the statement excludes forward ones); "
+                  "EXT time.sleep(d) lets at least max(d,0) of true time pass",
+                  "virtual enter/recur/exit of the Doist (recur takes an arbitrary amount of true time)"],
+    assumptions=["termination of the wait loop is not proved (a stalled clock waits for ever, which the property allows)", "limit=None, no exception from recur in this contract"],
+    explanation="Doist.do(real=True) is interpreted from /repo/src with ghost true time tau and clock offset off. TOP obligation at every call of recur: tau >= tau_start + k*tock "
+                "(k-th cycle never early), for the tock the Doist has when the run starts. Outer loop and wait loop are cut by invariants (any number of cycles and wake-ups): the "
+                "period equals the tock; the timer's _last is a past reading (tp, op) with _stop - op >= next deadline in true time (existential witnessed by the path's readings); "
+                "no drift: under a steady clock one iteration moves the deadline by exactly one tock however late the wake-up (loop-body clause). MonoTimer.latest/start/restart/"
+                "expired/remaining are proved separately (C08 contracts).")
